@@ -377,8 +377,23 @@ func (endp *Endpoint) NewSession(conn *smtp.Conn) (smtp.Session, error) {
 	// is still open is aborted and its resources are released.
 	if conn != nil {
 		if prev, ok := conn.Session().(*Session); ok && prev != nil {
-			if err := prev.Logout(); err != nil {
-				endp.Log.Error("previous session logout failed", err)
+			// The previous session may be in the middle of a BDAT transfer:
+			// its Data runs on another goroutine, holds the session lock and
+			// waits for chunks that only this goroutine can pass on. Waiting
+			// for the lock here would block the connection forever. In that
+			// case the session is logged out as soon as the transfer ends
+			// (go-smtp closes the data pipe on RSET, QUIT and disconnect).
+			if prev.msgLock.TryLock() {
+				prev.msgLock.Unlock()
+				if err := prev.Logout(); err != nil {
+					endp.Log.Error("previous session logout failed", err)
+				}
+			} else {
+				go func() {
+					if err := prev.Logout(); err != nil {
+						endp.Log.Error("previous session logout failed", err)
+					}
+				}()
 			}
 		}
 	}
